@@ -2,6 +2,7 @@ SPECIFICATION SSpec
 CONSTANTS
   Repaired = TRUE
   MaxStyles = 3
+  UseAligns = TRUE
   Depth = 3
   OwnFields <- MCOwnAll
   BorderFields <- MCBorderAll
